@@ -24,9 +24,12 @@ type unitState struct {
 
 type step struct {
 	field *ast.FieldDefinition
-	args  string
 	on    string // inline fragment needed below this field ("" if the result type is an object)
 }
+
+// argument variants tried for a probe until the unit's own RPC is actually issued (a path
+// argument may make a parent null, e.g. recommendedCategory(maxPrice: 1))
+const probeVariants = 4
 
 var (
 	statesMu sync.Mutex
@@ -36,20 +39,23 @@ var (
 func unitStates(rigName string) (map[string]*unitState, error) {
 	statesMu.Lock()
 	defer statesMu.Unlock()
-	if s, ok := statesBy[rigName]; ok {
-		return s, nil
+	// always plain first: RPCs found unimplemented there are not probed through a null parent
+	// in the federated rig
+	for _, name := range []string{"plain", rigName} {
+		if _, ok := statesBy[name]; ok {
+			continue
+		}
+		w, err := worldByName(name)
+		if err != nil {
+			return nil, err
+		}
+		g, err := rigByName(name)
+		if err != nil {
+			return nil, err
+		}
+		statesBy[name] = computeStates(w, g)
 	}
-	w, err := worldByName(rigName)
-	if err != nil {
-		return nil, err
-	}
-	g, err := rigByName(rigName)
-	if err != nil {
-		return nil, err
-	}
-	s := computeStates(w, g)
-	statesBy[rigName] = s
-	return s, nil
+	return statesBy[rigName], nil
 }
 
 func leafSelection(w *world, def *ast.Definition) string {
@@ -79,8 +85,8 @@ func leafSelection(w *world, def *ast.Definition) string {
 	return b.String()
 }
 
-func probeText(w *world, mutation bool, path []step, f *ast.FieldDefinition) string {
-	inner := f.Name + genArgs(zeroChooser{}, w, f)
+func probeText(w *world, mutation bool, path []step, f *ast.FieldDefinition, c chooser) string {
+	inner := f.Name + genArgs(c, w, f)
 	if !isLeafType(w, f.Type) {
 		inner += " " + leafSelection(w, w.schema.Types[f.Type.Name()])
 	}
@@ -89,7 +95,7 @@ func probeText(w *world, mutation bool, path []step, f *ast.FieldDefinition) str
 		if s.on != "" {
 			inner = "... on " + s.on + " { " + inner + " }"
 		}
-		inner = s.field.Name + s.args + " { " + inner + " }"
+		inner = s.field.Name + genArgs(c, w, s.field) + " { " + inner + " }"
 	}
 	if mutation {
 		return "mutation { " + inner + " }"
@@ -97,28 +103,62 @@ func probeText(w *world, mutation bool, path []step, f *ast.FieldDefinition) str
 	return "{ " + inner + " }"
 }
 
-func probeUnit(w *world, g *rig, text string) *unitState {
+// unavailableRPCs: RPCs the mock answered Unimplemented in any rig (the mock is the same).
+var unavailableRPCs = map[string]bool{}
+
+func probeUnit(w *world, g *rig, u *unit, mutation bool, path []step) *unitState {
+	if u != nil && unavailableRPCs[u.RPC] {
+		return &unitState{Status: "unavailable", Why: "mock service does not implement the RPC (seen in the other rig)"}
+	}
+	var last *unitState
+	for k := 0; k < probeVariants; k++ {
+		text := probeText(w, mutation, path, u.Def, fixedChooser{k})
+		st, issued := probeOnce(w, g, u, text)
+		if st.Status == "unavailable" && u.RPC != "" {
+			unavailableRPCs[u.RPC] = true
+		}
+		if issued || st.Status == "unavailable" || st.Status == "broken" {
+			return st
+		}
+		if last == nil {
+			last = st
+		}
+	}
+	// the unit's RPC was never issued (its parent is null for every argument variant tried):
+	// nothing is known about it
+	last.Status, last.Why = "unreached", "the probe never issued "+u.RPC
+	return last
+}
+
+func probeOnce(w *world, g *rig, u *unit, text string) (*unitState, bool) {
 	st := &unitState{Status: "stable", Probe: text}
 	p, err := parseOp(w, text)
 	if err != nil {
-		return &unitState{Status: "broken", Why: "probe is not a valid operation: " + err.Error(), Probe: text}
+		return &unitState{Status: "broken", Why: "probe is not a valid operation: " + err.Error(), Probe: text}, false
 	}
 	first := ""
+	issued := u.RPC == ""
 	for i := 0; i < stabilityRuns; i++ {
 		out, f := runOne(g, w, p, func(string) bool { return false }, "q")
 		if strings.Contains(out.res.Body, "code = Unimplemented") {
-			return &unitState{Status: "unavailable", Why: "mock service does not implement the RPC", Probe: text}
+			return &unitState{Status: "unavailable", Why: "mock service does not implement the RPC", Probe: text}, true
 		}
 		if f != nil {
-			return &unitState{Status: "broken", Why: clip(f.msg), Probe: text, Finding: recognise(w, p, nil, *f)}
+			return &unitState{Status: "broken", Why: clip(f.msg), Probe: text, Finding: recognise(w, p, nil, *f)}, true
+		}
+		if contains(out.res.RPCs, u.RPC) {
+			issued = true
 		}
 		if i == 0 {
 			first = out.res.Body
+			if !issued {
+				return st, false // try another argument variant
+			}
 		} else if out.res.Body != first && st.Status == "stable" {
 			st.Status, st.Why = "unstable", fmt.Sprintf("run %d differs from run 0", i)
 		}
 	}
-	return st
+	return st, issued
 }
 
 func computeStates(w *world, g *rig) map[string]*unitState {
@@ -129,7 +169,8 @@ func computeStates(w *world, g *rig) map[string]*unitState {
 	queue = append(queue, w.schema.Query)
 	if w.schema.Mutation != nil {
 		for _, f := range w.allowed[w.schema.Mutation.Name] {
-			states[w.schema.Mutation.Name+"."+f.Name] = probeUnit(w, g, probeText(w, true, nil, f))
+			key := w.schema.Mutation.Name + "." + f.Name
+			states[key] = probeUnit(w, g, w.units[key], true, nil)
 		}
 	}
 	for len(queue) > 0 {
@@ -140,7 +181,7 @@ func computeStates(w *world, g *rig) map[string]*unitState {
 			key := def.Name + "." + f.Name
 			if u := w.units[key]; u != nil {
 				if _, done := states[key]; !done {
-					states[key] = probeUnit(w, g, probeText(w, false, path, f))
+					states[key] = probeUnit(w, g, u, false, path)
 				}
 				if states[key].Status != "stable" {
 					continue
@@ -150,7 +191,6 @@ func computeStates(w *world, g *rig) map[string]*unitState {
 				continue
 			}
 			rt := w.schema.Types[f.Type.Name()]
-			args := genArgs(zeroChooser{}, w, f)
 			for _, pt := range w.possible(rt) {
 				if _, ok := reach[pt.Name]; ok {
 					continue
@@ -159,7 +199,7 @@ func computeStates(w *world, g *rig) map[string]*unitState {
 				if rt.Kind != ast.Object {
 					on = pt.Name
 				}
-				reach[pt.Name] = append(append([]step{}, path...), step{field: f, args: args, on: on})
+				reach[pt.Name] = append(append([]step{}, path...), step{field: f, on: on})
 				queue = append(queue, pt)
 			}
 		}
